@@ -36,10 +36,14 @@ def _cnt(name):
         _COUNT(name)
 
 
+_MAG = [0.0]      # magnitude of the matrix being judged: sums of cancelling values are only determined up to
+                  # the rounding of their terms (set per state by summaries())
+
+
 def _close(a, b):
     a = np.asarray(a, float)
     b = np.asarray(b, float)
-    return a.shape == b.shape and np.allclose(a, b, rtol=1e-12, atol=0, equal_nan=True)
+    return a.shape == b.shape and np.allclose(a, b, rtol=1e-12, atol=1e-12 * _MAG[0], equal_nan=True)
 
 
 def fmt3(x):
@@ -105,6 +109,7 @@ def summaries(t, m, report):
     D = np.asarray(t.matrix_data.toarray(), float).reshape(N, Mm)
     if np.isnan(D).any() or np.isinf(D).any():
         return          # NaN/inf are outside every property's domain
+    _MAG[0] = float(np.abs(D).sum()) if D.size else 0.0
 
     def bad(sig, detail):
         report(sig, detail)
